@@ -74,9 +74,48 @@ Proof.
   - intros H. inversion H; subst. apply (Hf a x e (or_introl eq_refl) Efx).
 Qed.
 
+(* ------------------------------------------------------------------ either behaviour of the tree *)
+Lemma mem_char_before c c' s : mem_char c (before c' s) = true -> mem_char c s = true.
+Proof.
+  induction s as [|x s IH]; [intros H; exact H|]. unfold before in *. cbn [split_first].
+  destruct (x =? c') eqn:E; [cbn; discriminate|].
+  destruct (split_first c' s) as [[a r]|]; cbn [mem_char] in *.
+  - destruct (x =? c); [reflexivity|]. cbn [orb]. exact IH.
+  - intros H. exact H.
+Qed.
+
+Lemma mem_char_split_first c s : mem_char c s = true -> exists a r, split_first c s = Some (a, r).
+Proof.
+  induction s as [|x s IH]; cbn [mem_char split_first]; [discriminate|].
+  destruct (x =? c); [intros _; eexists; eexists; reflexivity|]. cbn [orb]. intros H.
+  destruct (IH H) as (a & r & ->). eexists; eexists; reflexivity.
+Qed.
+
+Lemma is_nested_in_header bn h : is_nested bn h = true -> mem_char HS h = true.
+Proof.
+  unfold is_nested. destruct bn; [|intros H; exact H]. unfold get_field_name.
+  rewrite mem_char_strip by (apply sep_plain_not_ws, hdr_plain).
+  intros H. apply mem_char_before in H. apply mem_char_before in H. exact H.
+Qed.
+
+Lemma hsplit_some bn h a r : hsplit bn h = Some (a, r) -> split_first HS h = Some (a, r).
+Proof. unfold hsplit. destruct (is_nested bn h); [intros H; exact H|discriminate]. Qed.
+
+Lemma hsplit_nested bn h : is_nested bn h = match hsplit bn h with Some _ => true | None => false end.
+Proof.
+  unfold hsplit. destruct (is_nested bn h) eqn:E; [|reflexivity].
+  destruct (mem_char_split_first _ _ (is_nested_in_header bn h E)) as (a & r & ->). reflexivity.
+Qed.
+
+Section Behaviour.
+Variable bn : bool.
+Notation step := (step_at bn).
+Notation infer_rec := (infer_rec_at bn).
+Notation infer := (infer_at bn).
+
 Lemma step_fuel acc h : step acc h <> Err EOutOfFuel.
 Proof.
-  destruct acc as [F C]. unfold step. destruct (split_first HS h) as [[a b]|]; [discriminate|].
+  destruct acc as [F C]. unfold step_at. destruct (hsplit bn h) as [[a b]|]; [discriminate|].
   pose proof (parse_header_annotations_fuel h) as H.
   destruct (parse_header_annotations h); [discriminate|congruence].
 Qed.
@@ -108,8 +147,8 @@ Proof. rewrite max_len_app. unfold max_len at 2. cbn [fold_right]. lia. Qed.
 Lemma step_subs_below M F C h F' C' :
   (length h <= M)%nat -> subs_below M C -> step (F, C) h = Ok (F', C') -> subs_below M C'.
 Proof.
-  intros Hh HC. unfold step. destruct (split_first HS h) as [[a b]|] eqn:E.
-  - intros H. inversion H; subst. apply split_first_length in E.
+  intros Hh HC. unfold step_at. destruct (hsplit bn h) as [[a b]|] eqn:E.
+  - intros H. inversion H; subst. apply hsplit_some, split_first_length in E.
     apply (sset_Forall (fun l => (max_len l < M)%nat)); [exact HC|]. rewrite max_len_snoc.
     assert (Hold : (max_len match sget C a with Some l => l | None => [] end < M)%nat).
     { destruct (sget C a) as [l|] eqn:Eg; [apply (sget_Forall (fun l => (max_len l < M)%nat) C a l HC Eg)|].
@@ -149,7 +188,7 @@ Qed.
 
 Lemma infer_rec_fuel fuel : forall hs, (max_len hs < fuel)%nat -> infer_rec fuel hs <> Err EOutOfFuel.
 Proof.
-  induction fuel as [|f IH]; intros hs Hf; [lia|]. cbn [infer_rec].
+  induction fuel as [|f IH]; intros hs Hf; [lia|]. cbn [infer_rec_at].
   destruct (foldM step hs ([], [])) as [[F C]|e] eqn:E1.
   - assert (HC : subs_below (max_len hs) C).
     { apply (fold_step_subs_below (max_len hs) hs [] [] F C); [apply length_le_max_len|constructor|exact E1]. }
@@ -166,19 +205,15 @@ Proof.
 Qed.
 
 (* the fuel of [infer] suffices on every header list whatsoever *)
-Theorem infer_never_out_of_fuel hs : infer hs <> Err EOutOfFuel.
-Proof. unfold infer. apply infer_rec_fuel. lia. Qed.
+Theorem infer_at_never_out_of_fuel hs : infer hs <> Err EOutOfFuel.
+Proof. unfold infer_at. apply infer_rec_fuel. lia. Qed.
 
 (* ================================================================== 2. plain and dotted columns are independent *)
-Definition is_dotted (h : str) : bool := mem_char HS h.
-Definition plain_of (hs : list str) : list str := filter (fun h => negb (is_dotted h)) hs.
-Definition dotted_of (hs : list str) : list str := filter is_dotted hs.
-(* the header list with the plain columns moved to the front, both groups in their order *)
-Definition stable_partition (hs : list str) : list str := plain_of hs ++ dotted_of hs.
-
-(* (prefix, sub-header) of every dotted column, in column order *)
-Definition pairs_of (hs : list str) : list (str * str) :=
-  flat_map (fun h => match split_first HS h with Some p => [p] | None => [] end) hs.
+Notation is_dotted := (is_nested bn).
+Notation plain_of := (Infer.plain_of bn).
+Notation dotted_of := (Infer.dotted_of bn).
+Notation stable_partition := (Infer.stable_partition bn).
+Notation pairs_of := (Infer.pairs_of bn).
 
 Definition step_plain (F : sdict model) (h : str) : result ierr (sdict model) :=
   match parse_header_annotations h with
@@ -188,12 +223,8 @@ Definition step_plain (F : sdict model) (h : str) : result ierr (sdict model) :=
 Definition add_pair (C : sdict (list str)) (p : str * str) : sdict (list str) :=
   sset C (fst p) ((match sget C (fst p) with Some l => l | None => [] end) ++ [snd p]).
 
-Lemma split_first_dotted h : is_dotted h = match split_first HS h with Some _ => true | None => false end.
-Proof.
-  unfold is_dotted. induction h as [|x h IH]; cbn [mem_char split_first]; [reflexivity|].
-  destruct (x =? HS); [reflexivity|]. cbn [orb]. rewrite IH.
-  destruct (split_first HS h) as [[a b]|]; reflexivity.
-Qed.
+Lemma split_first_dotted h : is_dotted h = match hsplit bn h with Some _ => true | None => false end.
+Proof. apply hsplit_nested. Qed.
 
 Lemma fold_step_split hs : forall F C,
   foldM step hs (F, C)
@@ -204,8 +235,8 @@ Lemma fold_step_split hs : forall F C,
 Proof.
   induction hs as [|h hs IH]; intros F C; [reflexivity|].
   cbn [foldM]. unfold plain_of, pairs_of. cbn [filter flat_map]. fold (plain_of hs). fold (pairs_of hs).
-  rewrite split_first_dotted. unfold step at 1.
-  destruct (split_first HS h) as [[a b]|] eqn:E; cbn [negb app].
+  rewrite split_first_dotted. unfold step_at at 1.
+  destruct (hsplit bn h) as [[a b]|] eqn:E; cbn [negb app].
   - rewrite IH. cbn [fold_left]. reflexivity.
   - cbn [foldM].
     change (step_plain F h) with (match parse_header_annotations h with
@@ -227,7 +258,7 @@ Lemma pairs_of_dotted hs : pairs_of (dotted_of hs) = pairs_of hs.
 Proof.
   induction hs as [|h hs IH]; [reflexivity|]. unfold dotted_of, pairs_of. cbn [filter flat_map].
   fold (dotted_of hs). fold (pairs_of hs). rewrite split_first_dotted.
-  destruct (split_first HS h) as [[a b]|] eqn:E.
+  destruct (hsplit bn h) as [[a b]|] eqn:E.
   - cbn [flat_map]. rewrite E. fold (pairs_of (dotted_of hs)). rewrite IH. reflexivity.
   - exact IH.
 Qed.
@@ -236,8 +267,8 @@ Qed.
 Theorem infer_plain_dotted hs1 hs2 :
   plain_of hs1 = plain_of hs2 -> dotted_of hs1 = dotted_of hs2 -> infer hs1 = infer hs2.
 Proof.
-  intros Hp Hd. unfold infer. rewrite (max_len_partition hs1), (max_len_partition hs2), Hp, Hd.
-  cbn [infer_rec]. rewrite !fold_step_split, Hp.
+  intros Hp Hd. unfold infer_at. rewrite (max_len_partition hs1), (max_len_partition hs2), Hp, Hd.
+  cbn [infer_rec_at]. rewrite !fold_step_split, Hp.
   rewrite <- (pairs_of_dotted hs1), <- (pairs_of_dotted hs2), Hd. reflexivity.
 Qed.
 
@@ -279,7 +310,7 @@ Lemma infer_rec_fuel_irrelevant f1 : forall f2 hs,
   (max_len hs < f1)%nat -> (max_len hs < f2)%nat -> infer_rec f1 hs = infer_rec f2 hs.
 Proof.
   induction f1 as [|f1 IH]; intros f2 hs H1 H2; [lia|]. destruct f2 as [|f2]; [lia|].
-  cbn [infer_rec]. destruct (foldM step hs ([], [])) as [[F C]|e] eqn:E1; [|reflexivity].
+  cbn [infer_rec_at]. destruct (foldM step hs ([], [])) as [[F C]|e] eqn:E1; [|reflexivity].
   assert (HC : subs_below (max_len hs) C).
   { apply (fold_step_subs_below (max_len hs) hs [] [] F C); [apply length_le_max_len|constructor|exact E1]. }
   match goal with
@@ -291,20 +322,11 @@ Proof.
 Qed.
 
 Lemma infer_any_fuel hs fuel : (max_len hs < fuel)%nat -> infer hs = infer_rec fuel hs.
-Proof. intros H. unfold infer. apply infer_rec_fuel_irrelevant; lia. Qed.
+Proof. intros H. unfold infer_at. apply infer_rec_fuel_irrelevant; lia. Qed.
 
 (* ================================================================== 4. what the dotted columns contribute *)
-(* keys in order of first appearance *)
-Definition add_key (seen : list str) (k : str) : list str := if str_in k seen then seen else seen ++ [k].
-Definition add_keys (seen l : list str) : list str := fold_left add_key l seen.
-Definition first_occ (l : list str) : list str := add_keys [] l.
-
-(* the sub-headers of prefix [k], in column order *)
-Definition subs_for (k : str) (ps : list (str * str)) : list str :=
-  map snd (filter (fun p : str * str => str_eqb (fst p) k) ps).
-
-Definition prefixes (hs : list str) : list str := first_occ (map fst (pairs_of hs)).
-Definition subs_of (k : str) (hs : list str) : list str := subs_for k (pairs_of hs).
+Notation prefixes := (Infer.prefixes bn).
+Notation subs_of := (Infer.subs_of bn).
 
 Lemma str_eqb_neq a b : a <> b -> str_eqb a b = false.
 Proof. intros H. destruct (str_eqb a b) eqn:E; [apply str_eqb_eq in E; contradiction|reflexivity]. Qed.
@@ -395,7 +417,7 @@ Proof.
   intros Hp Hk Hs.
   rewrite (infer_any_fuel hs1 (S (Nat.max (max_len hs1) (max_len hs2)))) by lia.
   rewrite (infer_any_fuel hs2 (S (Nat.max (max_len hs1) (max_len hs2)))) by lia.
-  cbn [infer_rec]. rewrite !fold_step_split, Hp.
+  cbn [infer_rec_at]. rewrite !fold_step_split, Hp.
   rewrite (complex_determined (pairs_of hs1) (pairs_of hs2) Hk Hs). reflexivity.
 Qed.
 
@@ -441,7 +463,7 @@ Proof.
 Qed.
 
 Lemma keys_children f C : forall F F',
-  foldM (child_step f) C F = Ok F' -> map fst F' = add_keys (map fst F) (map fst C).
+  foldM (child_step bn f) C F = Ok F' -> map fst F' = add_keys (map fst F) (map fst C).
 Proof.
   induction C as [|[k l] C IH]; intros F F'; cbn [foldM].
   - intros H. inversion H. reflexivity.
@@ -463,13 +485,19 @@ Theorem infer_field_order hs fields d :
   infer hs = Ok (TRec fields, d) ->
   map fst fields = first_occ (map get_field_name (plain_of hs) ++ map fst (pairs_of hs)).
 Proof.
-  unfold infer. cbn [infer_rec]. rewrite fold_step_split.
+  unfold infer_at. cbn [infer_rec_at]. rewrite fold_step_split.
   destruct (foldM step_plain (plain_of hs) []) as [F|e] eqn:E1; [|discriminate].
-  match goal with |- context [foldM ?g ?C F] => change (foldM g C F) with (foldM (child_step (max_len hs)) C F) end.
-  destruct (foldM (child_step (max_len hs)) _ F) as [F'|e] eqn:E2; [|discriminate].
+  match goal with |- context [foldM ?g ?C F] => change (foldM g C F) with (foldM (child_step bn (max_len hs)) C F) end.
+  destruct (foldM (child_step bn (max_len hs)) _ F) as [F'|e] eqn:E2; [|discriminate].
   intros H. apply finish_class in H. subst fields.
   etransitivity; [apply (keys_children _ _ _ _ E2)|].
   rewrite (keys_step_plain _ _ _ E1), keys_add_pairs.
   cbn [map]. unfold first_occ at 1. rewrite add_keys_app. fold (first_occ (map fst (pairs_of hs))).
   rewrite add_keys_first_occ. reflexivity.
 Qed.
+
+End Behaviour.
+
+(* ================================================================== 6. the tree at hand *)
+Theorem infer_never_out_of_fuel hs : Infer.infer hs <> Err EOutOfFuel.
+Proof. apply infer_at_never_out_of_fuel. Qed.
